@@ -92,3 +92,83 @@ pub fn dec_pats(s: &str) -> Vec<Vec<u8>> {
     }
     s.split(',').map(unhex).collect()
 }
+
+/// The provided methods of `Iterator` must agree with draining by `next()`: an iterator type may
+/// override them (nth, count, last, size_hint, fold, ...), and adapters such as skip / step_by
+/// are built on them.  `mk` makes a fresh iterator, `conv` maps its items to comparable values,
+/// `want` is what draining by `next()` must give.
+pub fn iter_protocol<I: Iterator, T: PartialEq + std::fmt::Debug>(mk: &dyn Fn() -> I, conv: &dyn Fn(I::Item) -> T, want: &[T]) -> Result<(), String> {
+    let n = want.len();
+    let eq = |got: &[T], from: usize, step: usize| -> bool {
+        let w: Vec<&T> = want.iter().skip(from).step_by(step).collect();
+        got.len() == w.len() && got.iter().zip(w).all(|(a, b)| a == b)
+    };
+    // draining by next(), with size_hint bracketing what is left at every step
+    {
+        let mut it = mk();
+        let mut k = 0;
+        loop {
+            let (lo, hi) = it.size_hint();
+            if k <= n && (lo > n - k || hi.map_or(false, |h| h < n - k)) {
+                return Err(format!("size_hint() = ({}, {:?}) with {} items left", lo, hi, n - k));
+            }
+            match it.next() {
+                Some(x) => {
+                    let x = conv(x);
+                    if k >= n || x != want[k] {
+                        return Err(format!("next() #{} = {:?}, expected {:?}", k, x, want.get(k)));
+                    }
+                    k += 1;
+                }
+                None => break,
+            }
+        }
+        if k != n {
+            return Err(format!("next() ended after {} items, expected {}", k, n));
+        }
+    }
+    let c = mk().count();
+    if c != n {
+        return Err(format!("count() = {}, expected {}", c, n));
+    }
+    let l = mk().last().map(conv);
+    if l.as_ref() != want.last() {
+        return Err(format!("last() = {:?}, expected {:?}", l, want.last()));
+    }
+    let f = mk().fold(0usize, |a, _| a + 1);
+    if f != n {
+        return Err(format!("fold() visited {} items, expected {}", f, n));
+    }
+    for k in 0..=n.min(4) {
+        let mut it = mk();
+        let got = it.nth(k).map(conv);
+        if got.as_ref() != want.get(k) {
+            return Err(format!("nth({}) = {:?}, expected {:?}", k, got, want.get(k)));
+        }
+        let nx = it.next().map(conv);
+        if nx.as_ref() != want.get(k + 1) {
+            return Err(format!("next() after nth({}) = {:?}, expected {:?}", k, nx, want.get(k + 1)));
+        }
+        let got: Vec<T> = mk().skip(k).map(conv).collect();
+        if !eq(&got, k, 1) {
+            return Err(format!("skip({}) gives {:?}, expected the items from #{} of {:?}", k, got, k, want));
+        }
+        if k >= 1 {
+            let mut it = mk();
+            for _ in 0..k {
+                it.next();
+            }
+            let c = it.count();
+            if c != n.saturating_sub(k) {
+                return Err(format!("count() after {} calls of next() = {}, expected {}", k, c, n.saturating_sub(k)));
+            }
+        }
+    }
+    for step in [2usize, 3] {
+        let got: Vec<T> = mk().step_by(step).map(conv).collect();
+        if !eq(&got, 0, step) {
+            return Err(format!("step_by({}) gives {:?}, expected every {}th of {:?}", step, got, step, want));
+        }
+    }
+    Ok(())
+}
